@@ -41,6 +41,9 @@ func (r *renderer) expr(v ssa.Value, d int) string {
 	}
 	switch x := v.(type) {
 	case *ssa.Parameter:
+		if a := inlineActual(x); a != nil && d < 30 {
+			return r.expr(a, d+1) // parameter of an extracted helper: the actual argument
+		}
 		fn := x.Parent()
 		for i, p := range fn.Params {
 			if p == x {
@@ -396,6 +399,12 @@ func LoadedFrom(v ssa.Value) ssa.Value {
 func ResolveLocal(v ssa.Value) ssa.Value {
 	for i := 0; i < 8; i++ {
 		v = Unwrap(v)
+		if par, ok := v.(*ssa.Parameter); ok {
+			if a := inlineActual(par); a != nil {
+				v = a
+				continue
+			}
+		}
 		addr := LoadedFrom(v)
 		if addr == nil {
 			return v
